@@ -16,6 +16,15 @@ import (
 
 type c16Suites struct {
 	Hex string // raw cipher suite record data served by the BMC
+	// Prior lists the record data of earlier retrievals on the same connection
+	Prior []string `json:",omitempty"`
+}
+
+// c16Conn is a connection that serves several retrievals, one after another.
+type c16Conn struct {
+	e      *Env
+	server *refbmc.CipherSuiteServer
+	prior  []string
 }
 
 type c16DCMI struct {
@@ -150,6 +159,14 @@ func c16Exec(run *ev.Run, c ev.Case) {
 	case "suites":
 		var s c16Suites
 		c.Decode(&s)
+		if len(s.Prior) > 0 {
+			conn := &c16Conn{}
+			for _, h := range s.Prior {
+				c16RunSuitesOn(run, unhex(h), "replay-prior", conn)
+			}
+			c16RunSuitesOn(run, unhex(s.Hex), "replay", conn)
+			return
+		}
 		c16RunSuites(run, unhex(s.Hex), "replay")
 	case "dcmi":
 		var d c16DCMI
@@ -161,6 +178,7 @@ func c16Exec(run *ev.Run, c ev.Case) {
 		r := rng(b.Seed+int64(b.From), "c16"+b.What)
 		switch b.What {
 		case "suites":
+			var shared *c16Conn
 			for i := b.From; i < b.To; i++ {
 				n := r.Intn(21)
 				recs := c16RandRecords(r, n)
@@ -204,6 +222,13 @@ func c16Exec(run *ev.Run, c ev.Case) {
 					}
 				}
 				c16RunSuites(run, data, "valid")
+				if i%2 == 0 {
+					// the same retrieval on a connection that has done retrievals before
+					if shared == nil || len(shared.prior) > 40 {
+						shared = &c16Conn{}
+					}
+					c16RunSuitesOn(run, data, "valid-used-connection", shared)
+				}
 			}
 		case "endless":
 			// a BMC that answers every list index with a full 16-byte chunk: the enumeration must still stop
@@ -245,13 +270,25 @@ func c16Exec(run *ev.Run, c ev.Case) {
 	}
 }
 
-func c16RunSuites(run *ev.Run, data []byte, class string) {
+func c16RunSuites(run *ev.Run, data []byte, class string) { c16RunSuitesOn(run, data, class, nil) }
+
+func c16RunSuitesOn(run *ev.Run, data []byte, class string, conn *c16Conn) {
 	run.Eval(1)
 	cs := ev.MkCase("suites", c16Suites{Hex: ev.Hex(data)})
-	cfg := defaultCfg(rng(int64(len(data)), "c16cfg"))
-	e := NewEnv(cfg, memtr.Window)
-	server := &refbmc.CipherSuiteServer{Channel: 2, Data: data}
-	e.BMC.Handler = server.Handle
+	if conn == nil {
+		conn = &c16Conn{}
+	} else {
+		cs = ev.MkCase("suites", c16Suites{Hex: ev.Hex(data), Prior: append([]string(nil), conn.prior...)})
+	}
+	if conn.e == nil {
+		cfg := defaultCfg(rng(int64(len(data)), "c16cfg"))
+		conn.e = NewEnv(cfg, memtr.Window)
+		conn.server = &refbmc.CipherSuiteServer{Channel: 2}
+		conn.e.BMC.Handler = conn.server.Handle
+	}
+	e, server := conn.e, conn.server
+	server.Data, server.Requests = data, nil
+	conn.prior = append(conn.prior, ev.Hex(data))
 	ctx, cancel := e.LimitCtx(80)
 	defer cancel()
 	var got []ipmi.CipherSuiteRecord
